@@ -2,10 +2,19 @@ import YatimlModel.Model.Wire
 import YatimlModel.Model.Resolver
 import YatimlModel.Gen.LoaderResolvers
 import YatimlModel.Gen.DumperResolvers
+import YatimlModel.Driver.JsonCmd
 /-!
 The model driver: one request per line on stdin, one answer per line on stdout.
 -/
 open YatimlModel
+
+def handleSexp (line : String) : String :=
+  match Wire.parseLine line with
+  | some (.atom "jtree" :: args) => Driver.cmdJtree args
+  | some (.atom "jstep" :: args) => Driver.cmdJstep args
+  | some (.atom "jstr" :: args) => Driver.cmdJstr args
+  | some _ => "bad-op"
+  | none => "bad-syntax"
 
 def handle (line : String) : String :=
   match line.splitOn " " with
@@ -15,7 +24,7 @@ def handle (line : String) : String :=
       let tbl := if which == "L" then Gen.loaderTable else Gen.dumperTable
       (resolve tbl cs).toString
     | none => "bad-hex"
-  | _ => "bad-op"
+  | _ => handleSexp line
 
 partial def loop (h : IO.FS.Stream) (out : IO.FS.Stream) : IO Unit := do
   let line ← h.getLine
